@@ -327,7 +327,12 @@ def check_ccf_stores(ctx, entry, I, res, rule='R7'):
         # ... and the new head is linked in front of the old one: through a shared borrow the list only grows at its head. A fresh
         # chunk whose `prev` is anything but the head it replaces (the sentinel for "this chunk was unused anyway", an older
         # chunk) cuts chunks the arena still holds out of the list: never counted, never iterated, never freed
-        if okv and not creator_or_exclusive(I, e):
+        def constructs_the_arena(I, e):
+            # the function that owns the store has no arena parameter at all: it is building the Bump it will return
+            body = I.bodies.get(arena.owner_fn(I, e))
+            ins = (body or {}).get('meta', {}).get('inputs') or []
+            return not any('Bump<' in x or x.endswith('Bump') for x in ins)
+        if okv and not creator_or_exclusive(I, e) and not constructs_the_arena(I, e):
             ei = res.events.index(e)
             fa = [arena.footer_agg(x) for x in res.events[:ei] if x.kind == 'store' and arena.footer_agg(x)]
             for addr, agg in fa:
